@@ -58,9 +58,15 @@ public:
             if(fid[3*f] >= nn || fid[3*f+1] >= nn || fid[3*f+2] >= nn || ftype[f] >= nt){ std::cout << "bad-op\n"; return; }
         }
         if(k != w.size()){ std::cout << "bad-op\n"; return; }
-        std::shared_ptr<cell> c = std::make_shared<cell>(pos, fid, 0u, ct);
+        // As in a run, the cell is NOT initialised on the geometry the forces are computed for: its caches (face normals and areas,
+        // area_, volume_, centroid) come from an affinely deformed copy (same orientation) and the nodes are moved to the requested
+        // positions afterwards; apply_internal_forces has to refresh whatever it reads.
+        std::vector<double> pos0(pos);
+        for(size_t i = 0; i + 2 < pos0.size(); i += 3){ pos0[i] *= 1.25; pos0[i+1] *= 0.8; pos0[i+2] *= 1.125; }
+        std::shared_ptr<cell> c = std::make_shared<cell>(pos0, fid, 0u, ct);
         try { c->initialize_cell_properties(true); }
         catch(const std::exception& e){ std::cout << "reject\n"; return; }
+        if(c->node_lst_.size() == nn) for(unsigned n = 0; n < nn; n++) c->node_lst_[n].pos_ = vec3(pos[3*n], pos[3*n+1], pos[3*n+2]);
         bool unchanged = c->face_lst_.size() == nf && c->node_lst_.size() == nn;
         for(unsigned f = 0; unchanged && f < nf; f++){
             const face& F = c->face_lst_[f];
